@@ -6,9 +6,10 @@ use rustc_hash::FxHashMap;
 use crate::checks::type_checker::check_types;
 use crate::env::Env;
 use crate::eval::load_toplevel_items;
-use crate::garden_type::Type;
+use crate::garden_type::{is_subtype, Type};
 use crate::parser::ast::{
-    Block, Expression, FunInfo, IdGenerator, LetDestination, Symbol, SyntaxId, TypeHint,
+    Block, Expression, Expression_, FunInfo, IdGenerator, LetDestination, Symbol, SyntaxId,
+    TypeHint,
 };
 use crate::parser::parse_toplevel_items;
 use crate::parser::vfs::Vfs;
@@ -144,13 +145,45 @@ impl AnnotationFinder<'_> {
     }
 
     /// The inferred return type of a function body: the type of its
-    /// final expression, or `Unit` for an empty body.
+    /// final expression, or `Unit` for an empty body. `None` if the
+    /// body also has a `return` whose value doesn't have that type.
     fn body_return_ty(&self, body: &Block) -> Option<Type> {
-        match body.exprs.last() {
-            Some(expr) => self.id_to_ty.get(&expr.id).cloned(),
-            None => Some(Type::unit()),
+        let ty = match body.exprs.last() {
+            Some(expr) => self.id_to_ty.get(&expr.id).cloned()?,
+            None => Type::unit(),
+        };
+
+        let mut finder = ReturnFinder { returned: vec![] };
+        finder.visit_block(body);
+        for returned_expr in &finder.returned {
+            let returned_ty = match returned_expr {
+                Some(expr) => self.id_to_ty.get(&expr.id).cloned()?,
+                None => Type::unit(),
+            };
+            if !is_subtype(&returned_ty, &ty) {
+                return None;
+            }
         }
+
+        Some(ty)
     }
+}
+
+/// Collects the values of the `return` expressions of a function
+/// body, without entering nested function literals.
+struct ReturnFinder {
+    returned: Vec<Option<Rc<Expression>>>,
+}
+
+impl Visitor for ReturnFinder {
+    fn visit_expr(&mut self, expr: &Expression) {
+        if let Expression_::Return(value) = &expr.expr_ {
+            self.returned.push(value.clone());
+        }
+        self.visit_expr_(&expr.expr_);
+    }
+
+    fn visit_expr_fun_literal(&mut self, _: &FunInfo) {}
 }
 
 impl Visitor for AnnotationFinder<'_> {
